@@ -693,14 +693,21 @@ def _run(eng, contract, fn, res):
         if d is not None:
             defaults[arg.arg] = d
     if a.vararg or a.kwarg:
-        typed_kw = a.kwarg is not None and a.kwarg.arg in contract.params and a.vararg is None
+        typed_kw = (a.kwarg is None or a.kwarg.arg in contract.params) and (a.vararg is None or a.vararg.arg in contract.params)
         if not contract.params.get("*ok") and not typed_kw:
             raise Unsupported("*args/**kwargs parameter")
-        # opaque pass-through values (only forwarded to externals)
+        # opaque pass-through values (only forwarded to externals) unless the contract declares a type
         if a.vararg:
-            st.vars[a.vararg.arg] = PyConst("<varargs>")
+            if a.vararg.arg in contract.params:
+                # *args with a declared (sequence) type: the tuple of positional arguments
+                st.vars[a.vararg.arg] = make_value(eng, st, contract.params[a.vararg.arg], a.vararg.arg)
+            else:
+                st.vars[a.vararg.arg] = PyConst("<varargs>")
         if a.kwarg:
-            if a.kwarg.arg in contract.params:
+            if isinstance(contract.params.get(a.kwarg.arg), PyConst):
+                # a fixed keyword dictionary (e.g. PyConst({}): the call without keyword overrides)
+                st.vars[a.kwarg.arg] = contract.params[a.kwarg.arg]
+            elif a.kwarg.arg in contract.params:
                 st.vars[a.kwarg.arg] = make_value(eng, st, contract.params[a.kwarg.arg], a.kwarg.arg)
             else:
                 st.vars[a.kwarg.arg] = PyConst("<kwargs>")
